@@ -292,6 +292,23 @@ class Poly:
         return " + ".join(out)
 
 
+def pkey(p: "Poly"):
+    return frozenset(p.t.items())
+
+
+def bkey(b: "SBool"):
+    k = b.k
+    if k == "const":
+        return ("c", b.a)
+    if k == "cmp":
+        return ("m", b.a, pkey(b.b))
+    if k in ("and", "or"):
+        return (k, tuple(bkey(x) for x in b.a))
+    if k == "not":
+        return ("n", bkey(b.a))
+    return ("z", id(b))
+
+
 ZERO = Poly()
 ONE = Poly({(): F1})
 
@@ -971,6 +988,7 @@ class Ctx:
         self.ndef = 0
         self.uf_apps = []      # (name, args tuple z3, result atom) for reporting
         self.stub_log = []
+        self.memo = {}         # structural hash-consing of definitional atoms (per path)
 
     def note_mono(self, m):
         if m not in self.monos:
@@ -1010,12 +1028,30 @@ class Ctx:
 
     # ---- definitional atoms ------------------------------------------------------------
     def def_ite(self, c: SBool, x: Poly, y: Poly) -> Poly:
+        key = ("ite", bkey(c), pkey(x), pkey(y))
+        hit = self.memo.get(key)
+        if hit is not None:
+            return hit
+        r = self._def_ite(c, x, y)
+        self.memo[key] = r
+        return r
+
+    def _def_ite(self, c: SBool, x: Poly, y: Poly) -> Poly:
         a = self.fresh("ite", ev=lambda env, c=c, x=x, y=y: x.eval(env) if c.eval(env) else y.eval(env))
         cz = c.z3()
         self.add_def(z3.And(z3.Implies(cz, a.z3v == x.z3()), z3.Implies(z3.Not(cz), a.z3v == y.z3())))
         return Poly.atom(a)
 
     def def_div(self, n: Poly, d: Poly) -> Poly:
+        key = ("div", pkey(n), pkey(d))
+        hit = self.memo.get(key)
+        if hit is not None:
+            return hit
+        r = self._def_div(n, d)
+        self.memo[key] = r
+        return r
+
+    def _def_div(self, n: Poly, d: Poly) -> Poly:
         nz = _cmp0(d, "ne")
         if not bool(nz):
             raise ZeroDivisionError("symbolic division by a term that is zero on this path")
@@ -1053,6 +1089,15 @@ class Ctx:
         return True
 
     def def_sqrt(self, s: Sym) -> Sym:
+        key = ("sqrt", pkey(s.re))
+        hit = self.memo.get(key)
+        if hit is not None:
+            return hit
+        r = self._def_sqrt(s)
+        self.memo[key] = r
+        return r
+
+    def _def_sqrt(self, s: Sym) -> Sym:
         nn = _cmp0(s.re, "ge")
         if not bool(nn):
             raise StubMiss("sqrt of a term that is negative on this path")
